@@ -272,6 +272,9 @@ fn main() {
     if args.len() < 3 {
         machinery_failure("usage: e1 <property> <quick|thorough> | e1 replay <property> <file>");
     }
+    if args[1] == "c09-e2" {
+        e2run::c09_e2_child(&args[2]);
+    }
     if args[1] == "c08-seq" {
         c11::c08_seq_child(&args[2]);
     }
